@@ -21,7 +21,7 @@ def build(ctx):
     cbuild.cc(obj, [L + "/src/gsm/gsm_utils.c"], includes=[L + "/include", cfgdir], extra=["-c"])
     cbuild.cc(exe, [T + "/src/trx_if.c", cbuild.HC + "/drv_trxcon.c", L + "/src/talloc.c", obj],
               includes=[cbuild.HC + "/shim/trxcon", T + "/include", L + "/include"],
-              defines=["_GNU_SOURCE"])
+              defines=["_GNU_SOURCE"], extra=["-Wl,--wrap=send"])
     return exe
 
 
@@ -71,6 +71,9 @@ class Trxcon:
 
     def burst(self, fn, tn, pwr, bits):
         return self.op("BURST %d %d %d %s" % (fn, tn, pwr, hexs(bits)))
+
+    def failsend(self, err, count):
+        return self.op("FAILSEND %d %d" % (err, count))
 
     def uplink(self, pwr, bits):
         return self.op("UL %d %s" % (pwr, hexs(bits)))
